@@ -31,6 +31,17 @@ VeeV(g, A) == VStrict([i \in 1..DoF(g) |-> VeeCoord(g, A, i)])
 \* A lies in the algebra iff hat(vee(A)) = A
 InAlgebra(g, A, tol) == FLe(MMaxAbs(MSub(Hat(g, VeeV(g, A)), A)), tol)
 
+\* the matrix the library uses for algebra elements: the pure rotation groups drop the homogeneous
+\* row/column (AlgN < MatN); for a bundle the blocks of the parts at the AlgN offsets
+RECURSIVE AlgView(_,_)
+AlgView(g, A) ==
+  IF g.k = "Bundle"
+  THEN MStrict(BlockDiag([i \in 1..Len(g.parts) |->
+                  AlgView(g.parts[i], MBlock(A, Off(MatN, g.parts, i) + 1, Off(MatN, g.parts, i) + 1,
+                                             MatN(g.parts[i]), MatN(g.parts[i])))],
+               [i \in 1..Len(g.parts) |-> AlgN(g.parts[i])], AlgN(g), 0))
+  ELSE MBlock(A, 1, 1, AlgN(g), AlgN(g))
+
 Comm(A, C) == MSub(MMul(A, C), MMul(C, A))
 BracketV(g, a, b) == VeeV(g, Comm(Hat(g, a), Hat(g, b)))
 
@@ -70,7 +81,14 @@ JrSeries(ad, K) == JlSeriesK(MNeg(ad), K)[1]
 
 \* squared rotation magnitude of a tangent: sum of squares of the angular coordinates
 \* (for a bundle: the largest part's -- conservative for series lengths)
-Theta2(g, t) == FSum([i \in 1..DoF(g) |-> IF IsAngular(g, i) THEN FMul(t[i], t[i]) ELSE Z])
+RECURSIVE Theta2(_,_)
+Theta2(g, t) ==
+  IF g.k = "Bundle"
+  THEN LET RECURSIVE Mx(_)
+           Mx(i) == IF i > Len(g.parts) THEN Z
+                    ELSE FMax(Theta2(g.parts[i], SubSeq(t, Off(DoF, g.parts, i) + 1, Off(DoF, g.parts, i) + DoF(g.parts[i]))), Mx(i + 1))
+       IN Mx(1)
+  ELSE FSum([i \in 1..DoF(g) |-> IF IsAngular(g, i) THEN FMul(t[i], t[i]) ELSE Z])
 Theta(g, t) == FSqrt(Theta2(g, t))
 \* largest magnitude among the non-angular coordinates
 LinMax(g, t) == VMaxAbs([i \in 1..DoF(g) |-> IF IsAngular(g, i) THEN Z ELSE t[i]])
